@@ -167,6 +167,8 @@ Definition ofield_eqb (a b : ofield) : bool :=
 (* ProductSpace(spaces..., field=f, weighting=w): the checks of __init__ *)
 Definition mk_prod (l : list (obj T)) (ow : option (weighting T)) (of_ : option ofield) : res (obj T) :=
   let w := match ow with Some w => w | None => default_ps_w end in
+  (* field=None (the field of a product of non-numeric spaces) is the same as no field argument *)
+  let of_ := match of_ with Some FNone => None | x => x end in
   match l with
   | [] => match of_ with Some f => Ok (OProd [] w f) | None => ErrValue end
   | s :: _ =>
